@@ -20,6 +20,9 @@ Round 5 (hunt): no float value is stored into an array that inherits the
 caller's integer dtype (bounded, impose_at; repairs 37cdcb0, 94e41ab);
 synchronized tells tuple-valued entries by type, not by exception (repair
 48af035).
+Round 6: no function of mystic.constraints / the decorators of mystic.tools
+defaults an argument on its truth value; unique draws replacements from a set;
+connected keeps absorbed keys.
 NOT decided: landing in the target set on concrete vectors, idempotence, the
 numerics of impose_bounds / unique.
 """
@@ -411,6 +414,20 @@ def connected_unites_groups(ctx):
     merges = [c for c in ast.walk(outer[0]) if isinstance(c, ast.Call) and isinstance(c.func, ast.Attribute) and c.func.attr == 'pop' and unparse(c.func.value) == groups]
     ctx.check(bool(merges), 'connected#merge', 'groups linked by a pair are merged (the absorbed group is removed)',
               'connected never merges two groups', f, outer[0], statement='no merge of groups')
+    # the absorbed group's KEY becomes a member of the surviving group: it is a parameter index like any other (a pair may reach the group
+    # through one of its members, so the key is not necessarily one of the pair)
+    for mg in merges:
+        lp = parent(mg)
+        while lp is not None and not isinstance(lp, ast.For):
+            lp = parent(lp)
+        if lp is None or lp is outer[0] or not isinstance(lp.target, ast.Name):
+            continue
+        key = lp.target.id
+        kept = [c for st in lp.body for c in ast.walk(st) if isinstance(c, ast.Call) and isinstance(c.func, ast.Attribute) and c.func.attr in ('add', 'update', 'union')
+                and any(isinstance(x, ast.Name) and x.id == key for a in c.args for x in ast.walk(a) if not (isinstance(a, ast.Call) and isinstance(a.func, ast.Attribute) and a.func.attr == 'pop'))]
+        ctx.check(bool(kept), 'connected#absorbed-key', 'the key of an absorbed group joins the members of the surviving group',
+                  'connected merges the members of an absorbed group but drops its key `%s`: with the pairs (0,1),(2,3),(1,3) index 2 is lost, so impose_as / impose_collapse leave a connected parameter untied' % key,
+                  f, lp, statement='absorbed key not added')
     selfless = [c for c in ast.walk(outer[0]) if (isinstance(c, ast.Call) and isinstance(c.func, ast.Attribute) and c.func.attr in ('discard', 'remove')) or
                 (isinstance(c, ast.BinOp) and isinstance(c.op, ast.Sub))]
     ctx.check(len(selfless) >= 2, 'connected#key-not-member', 'the key of a group is kept out of its own member set (new group and extended group)',
@@ -487,3 +504,56 @@ def float_values_are_not_stored_into_an_integer_array(ctx):
                           '%s stores computed values into %s, an array with the dtype of the caller\'s vector: for integer input a float bound / draw / target is truncated (impose_bounds((0.5, 5.5)) on [0, 3, 10] lands outside the interval)'
                           % (f.qualname, A), f, st)
     ctx.need(n >= 6, 'expected >= 6 stores into the working arrays of bounded / impose_at, found %d' % n)
+
+
+@rule('C16.l', min_instances=40)
+def no_setting_is_decided_by_its_truth_value(ctx):
+    """the transforms take numeric settings for which 0 is an ordinary value (a bound of 0, an index 0, a target 0.0, an offset 0): no function of mystic.constraints or of the input-rewriting decorators in mystic.tools replaces an argument by a default on the argument's truth value (`min = min or -inf`, `if not target: ...`) - only `is None` decides that an argument was not given; positive control on a synthetic function"""
+    probe = ast.parse('def clipped(min=None, max=None):\n    min = min or -1\n    if not max: max = 1\n    return [i or 0 for i in min]\n').body[0]
+    ctx.need(len(truthiness_defaults(probe)) == 3, 'truthiness-default detector lost its positive control')
+    n = 0
+    for mod in (CN, TL):
+        m = ctx.model.modules[mod]
+        for q, fi in sorted(m.funcs.items()):
+            if fi.parent is not None and not isinstance(fi.node, ast.FunctionDef):
+                continue
+            n += 1
+            found = truthiness_defaults(fi.node) if fi.parent is None else []
+            ctx.touch(fi)
+            for p, node in found:
+                ctx.bad('%s#%s-by-truthiness' % (fi.qualname, p), '%s decides that its argument `%s` was not given by the argument\'s truth value (%s): a setting of 0 / 0.0 is replaced by the default - '
+                        'e.g. a bound of 0 is treated as no bound and entries beyond it pass unchanged' % (fi.qualname, p, norm_stmt(node)[:70]), fi, node)
+            if not found:
+                ctx.ok('%s#defaults' % fi.qualname, 'no argument is defaulted on its truth value', fi, fi.node)
+    ctx.need(n >= 40, 'expected >= 40 functions in mystic.constraints / mystic.tools, found %d' % n)
+
+
+@rule('C16.m', min_instances=2)
+def unique_draws_replacements_from_a_set(ctx):
+    """unique() replaces repeated entries by values popped from a shuffled pool: the pool is built as a SET difference (allowed values minus the values already present), so it holds each candidate once - a pool that keeps the repetitions of the allowed collection can hand out the same value twice and the result is not pairwise distinct"""
+    f = ctx.func(CN + ':unique')
+    popped = set(c.func.value.id for c in ast.walk(f.node) if isinstance(c, ast.Call) and isinstance(c.func, ast.Attribute) and c.func.attr == 'pop' and isinstance(c.func.value, ast.Name))
+    shuffled = set(c.args[0].id for c in ast.walk(f.node) if isinstance(c, ast.Call) and callee_text(c).split('.')[-1] == 'shuffle' and c.args and isinstance(c.args[0], ast.Name))
+    pools = popped & shuffled
+    ctx.need(pools, 'unique: the shuffled pool of replacement values is not found')
+    n = 0
+    for st in stmts_of(f.node):
+        if isinstance(st, ast.Assign) and len(st.targets) == 1 and isinstance(st.targets[0], ast.Name) and st.targets[0].id in pools:
+            n += 1
+            v = st.value
+            inner = v.args[0] if isinstance(v, ast.Call) and isinstance(v.func, ast.Name) and v.func.id in ('list', 'sorted', 'tuple') and v.args else v
+
+            def is_set(e):
+                if isinstance(e, ast.Call) and isinstance(e.func, ast.Name) and e.func.id in ('set', 'frozenset'):
+                    return True
+                if isinstance(e, (ast.Set, ast.SetComp)):
+                    return True
+                if isinstance(e, ast.BinOp) and isinstance(e.op, (ast.Sub, ast.BitAnd, ast.BitXor)):
+                    return is_set(e.left)
+                if isinstance(e, ast.Call) and isinstance(e.func, ast.Attribute) and e.func.attr in ('difference', 'intersection', 'symmetric_difference'):
+                    return is_set(e.func.value)
+                return False
+            ctx.check(is_set(inner), 'unique#pool@%d' % n, 'the replacement pool is a set (each candidate once)',
+                      'unique builds its pool of replacement values as %s, which keeps repeated members of the allowed collection: two duplicates can be replaced by the same value - the result is not pairwise distinct'
+                      % unparse(v)[:70], f, st)
+    ctx.need(n >= 2, 'unique: expected the two pool constructions (integer range / explicit collection), found %d' % n)
